@@ -82,6 +82,9 @@ where
     }
 }
 
+/// Maximum number of positions that a single chunk pull reserves.
+const MAX_TICKETS_PER_PULL: usize = usize::MAX >> 10;
+
 pub(crate) struct CompleteOnUnwind<'a>(&'a AtomicBool);
 
 impl Drop for CompleteOnUnwind<'_> {
@@ -175,6 +178,10 @@ where
             // nothing is requested: in particular, an empty result does not mean that the iterator is consumed
             return None;
         }
+
+        // tickets are positions in a usize: one request never reserves more than a small part of them,
+        // so that (concurrent) huge requests cannot wrap the ticket counter around and hand out a ticket twice
+        let n = n.min(MAX_TICKETS_PER_PULL);
 
         self.progress_and_get_begin_idx(n).and_then(|begin_idx| {
             // SAFETY: no other thread has the valid condition to iterate, they are waiting
